@@ -15,5 +15,6 @@ for f in sorted(os.listdir("/verif/harness/props")):
             continue
         if hasattr(m, "ANCHORS"):
             out[f[:-3].upper()] = C.ast_hashes(m.ANCHORS)
+out["_files"] = C.file_hashes()
 json.dump(out, open("/verif/harness/anchor_hashes.json", "w"), indent=1, sort_keys=True)
 print("recorded", sorted(out))
